@@ -331,6 +331,8 @@ def main():
                 m = re.match(r"^(C\d\d):(.*)$", name)
                 if m and m.group(1) != prop:
                     continue
+                if cfg.get("oracle_filter") and not m and not re.search(cfg["oracle_filter"], name):
+                    continue
                 failing.append(dict(oracle=name, suite=suite, input=inp, detail=detail))
             # replay on the model
             if r["cases"] and leanres["driver"]:
@@ -344,6 +346,12 @@ def main():
                         if ans != mo:
                             mismatches.append(dict(suite=suite, request=req, impl=ans, model=mo))
     totals["mismatches"] = len(mismatches)
+    if mismatches and cfg.get("mismatch_violation_pattern"):
+        # only some differences are violations of this property (e.g. the implementation panicked)
+        pat = re.compile(cfg["mismatch_violation_pattern"])
+        for m in [m for m in mismatches if pat.search(m["impl"])][:50]:
+            failing.append(dict(oracle="implementation-outcome", suite=m["suite"], input=m["request"],
+                                detail="implementation: " + m["impl"][:1500] + " ||| model: " + m["model"][:1500]))
     if mismatches and cfg.get("mismatch_is_violation"):
         # the property itself says "behaves like the (proved) reference": a difference on a concrete
         # input/history is a concrete failing input
